@@ -661,6 +661,11 @@ def check_doc(xml, expect_valid, label=""):
 
 
 def evaluate(case):
+    if case.get("optimise"):
+        from zcv import optprobe
+        g = optprobe.verdicts([{"xml": case["xml"], "text": None}], "-O")[0]
+        w = "schema-ok" if case.get("valid") else "schema-error"
+        return [] if g == w else [failure("verdict-under-python-O:%s-instead-of-%s" % (g.split(":")[0], w), case, "")]
     fl = check_doc(case["xml"], case.get("valid", False), case.get("edit", ""))
     return [failure(sig, case, d) for sig, d in fl]
 
@@ -670,7 +675,9 @@ NO_SHRINK = True
 
 def shards(tier, seed):
     n = 700 if tier == "thorough" else 300
-    return [{"seed": seed, "lo": i * n, "hi": (i + 1) * n, "all": tier == "thorough"} for i in range(16)]
+    specs = [{"seed": seed, "lo": i * n, "hi": (i + 1) * n, "all": tier == "thorough"} for i in range(16)]
+    specs.append({"seed": seed, "lo": 0, "hi": 120 if tier == "quick" else 1500, "optimise": True})
+    return specs
 
 
 def features(ast):
@@ -684,9 +691,43 @@ def features(ast):
     return n
 
 
+def run_optimised(spec, res):
+    """The same verdicts from an interpreter started with -O (where assert statements do not
+    exist): a sample of valid documents and of rule-violating edits."""
+    from zcv import optprobe
+    jobs, want = [], []
+    for i in range(spec["lo"], spec["hi"]):
+        rng = loadcheck.case_rng(spec["seed"] + 1010, i)
+        ast = gen.gen_schema(rng, handlers=False)
+        sm = refload.compile_schema(ast)
+        root = parse(gen.render_schema(ast))
+        jobs.append({"xml": render(root), "text": None})
+        want.append("schema-ok")
+        es = edits(root, sm)
+        rng.shuffle(es)
+        for label, depth, fn in es[:6]:
+            r2 = copy.deepcopy(root)
+            try:
+                fn(r2)
+            except Exception:  # noqa
+                continue
+            jobs.append({"xml": render(r2), "text": None, "edit": label})
+            want.append("schema-error")
+    got = optprobe.verdicts(jobs, "-O")
+    for job, w, g in zip(jobs, want, got):
+        res.evaluations += 1
+        if g != w:
+            res.fail("verdict-under-python-O:%s-instead-of-%s" % (g.split(":")[0], w), {"xml": job["xml"], "valid": w == "schema-ok", "optimise": True},
+                     job.get("edit", "valid document"))
+    res.exhaustive_parts = res.exhaustive_parts
+    return res
+
+
 def run_shard(spec):
     res = Result()
     counters = collections.Counter()
+    if spec.get("optimise"):
+        return run_optimised(spec, res)
     for i in range(spec["lo"], spec["hi"]):
         rng = loadcheck.case_rng(spec["seed"] + 1010, i)
         ast = gen.gen_schema(rng, handlers=rng.random() < 0.3)
